@@ -30,8 +30,8 @@ def stress(ctx):
     res["ok"] = not fails
     res["detail"] = "%d of %d parallel joins differ from the sequential result" % (len(fails), m.get("runs", 0))
     for i, f in enumerate(fails[:3]):
-        p = os.path.join(ctx["root"], "replays", "C04-%s-%d-stress-%d.json" % (ctx["tier"], ctx["seed"], i))
-        json.dump({"property": "C04", "kind": "parallel join differs from sequential join", "failure": f,
+        p = os.path.join(ctx["root"], "replays", "%s-%s-%d-stress-%d.json" % (ctx["pid"], ctx["tier"], ctx["seed"], i))
+        json.dump({"property": ctx["pid"], "kind": "parallel join differs from sequential join", "failure": f,
                    "replay": "vharness aux c04stress -tier %s -seed %d -out <dir>" % (ctx["tier"], ctx["seed"])}, open(p, "w"), indent=1)
         res["violations"].append((p, ""))
     return res
@@ -39,3 +39,5 @@ def stress(ctx):
 
 def install(CONFIG, EXTRA_TB, ASSUME):
     CONFIG.setdefault("C04", {}).setdefault("stages", []).append(stress)
+    # C13 (no cross-talk between the goroutines of one query): the same stress, keys handed to worker goroutines in batches
+    CONFIG.setdefault("C13", {}).setdefault("stages", []).append(stress)
